@@ -575,9 +575,17 @@ func (c1 intConst) binaryOp(op ast.OperatorType, c2 constant) (constant, error) 
 	case ast.OperatorBitOr:
 		return intConst{i: new(big.Int).Or(n1.i, n2.i)}, nil
 	case ast.OperatorXor:
-		return intConst{i: new(big.Int).Xor(n1.i, n2.i)}, nil
+		c := intConst{i: new(big.Int).Xor(n1.i, n2.i)}
+		if c.overflow() {
+			return intConst{}, errors.New("constant bitwise XOR overflow")
+		}
+		return c, nil
 	case ast.OperatorAndNot:
-		return intConst{i: new(big.Int).AndNot(n1.i, n2.i)}, nil
+		c := intConst{i: new(big.Int).AndNot(n1.i, n2.i)}
+		if c.overflow() {
+			return intConst{}, errors.New("constant bit clear overflow")
+		}
+		return c, nil
 	}
 	return nil, errInvalidOperation
 }
